@@ -1206,7 +1206,7 @@ def element_alternatives(repo, fi: FunctionInfo, el: ast.AST, depth: int = 0) ->
     return [((), el)]
 
 
-_PLAIN_DECORATORS = {"staticmethod", "classmethod", "property", "abstractmethod", "abc.abstractmethod", "functools.wraps", "wraps"}
+_PLAIN_DECORATORS = {"staticmethod", "classmethod", "property", "abstractmethod", "abc.abstractmethod", "functools.wraps", "wraps", "contextmanager", "contextlib.contextmanager"}
 _MEMO_DECORATORS = {"lru_cache", "functools.lru_cache", "cache", "functools.cache", "cached_property", "functools.cached_property"}
 _ITER_MAKERS = {"chain", "itertools.chain", "chain.from_iterable", "itertools.chain.from_iterable", "map", "filter", "zip", "iter", "enumerate", "reversed", "combinations", "combinations_w_r", "combinations_with_replacement", "itertools.combinations", "itertools.combinations_with_replacement", "itertools.product", "product", "itertools.islice", "islice"}
 
